@@ -17,7 +17,7 @@ LEVEL = 'exploration'
 RULE = (
     'Hypothesis-generated (retries 0-5, wait, backoff_factor, timeout, retry_on subset incl. None and the empty tuple, per-attempt script of '
     'success/listed/unlisted exception/overrun (an overrunning attempt may need 0.25-0.5 s to unwind when cut off), optional caller cancellation instant; in one case in three 1-2 further callers of the same '
-    'decorated function with scripts of their own are in flight at the same time) run on the virtual-time loop; each call is '
+    'decorated function with scripts of their own are in flight at the same time; in one case in six the call first queues for a single semaphore slot somebody else holds) run on the virtual-time loop; each call is '
     'compared with a reference model of call instants, waits, outcome and end time. Non-trivial = at least two '
     'attempts were made, or an attempt was cut off by the timeout, or a caller cancellation took effect; distinct by '
     'canonical JSON of the case.'
@@ -41,6 +41,10 @@ class EB(Exception):
 class EC(EA):
     pass
 
+
+import itertools as _it
+
+_UID = _it.count()
 
 EXC = {'EA': EA, 'EB': EB, 'EC': EC, 'TO': TimeoutError, 'VE': ValueError}
 
@@ -77,6 +81,14 @@ def _case(draw):
         # aim the caller's cancellation at the window in which the first attempt is unwinding from its cut-off
         cancel_at = timeout + draw(st.sampled_from([1, 2, 3])) * script[0][3] / 4 + 1 / 1024
     c = {'retries': retries, 'wait': wait, 'backoff': backoff, 'timeout': timeout, 'retry_on': retry_on, 'script': script, 'cancel_at': cancel_at}
+    if draw(st.integers(0, 5)) == 0:
+        # the decorated function has a semaphore with a single slot and somebody else holds it for `hold` seconds: the judged call
+        # queues for the slot first (acquisition timeout far away); a cancellation that arrives while it is queued must come out
+        c['hold'] = draw(q(1, 24))
+        if draw(st.booleans()):
+            c['cancel_at'] = draw(st.integers(0, int(c['hold'] * 8) - 1)) / 8 + 1 / 1024
+        c['lax'] = draw(st.booleans())
+        return c
     # one case in three: further callers of the SAME decorated function are in flight at the same time, each with a script of its
     # own (no semaphore, so the calls are independent: attempt counts, waits and outcomes must not leak from one call to another)
     if draw(st.integers(0, 2)) == 0:
@@ -146,6 +158,11 @@ def model(c, script=None, start=0.0, cancel_at='main'):
                 res.append((calls, ('exc', exc, idx), t))
         return res
 
+    hold = c.get('hold') if start == 0.0 else None  # (cases with a held slot have the main caller only)
+    if hold:
+        if ca is not None and ca < hold:
+            return [([], ('cancelled',), ca)]  # cancelled while queued for the slot: the function is never called
+        start = hold
     return go(start, 0, [], None)
 
 
@@ -161,7 +178,15 @@ def run_impl(c):
     ro = None if c['retry_on'] is None else tuple(EXC[n] for n in c['retry_on'])
     with fresh_loop() as loop:
 
-        @retry(wait=c['wait'], retries=c['retries'], timeout=c['timeout'], retry_on=ro, backoff_factor=c['backoff'])
+        semkw = {}
+        if c.get('hold'):
+            semkw = dict(semaphore_limit=1, semaphore_name=f'bvt_c19_{id(c)}_{next(_UID)}', semaphore_lax=bool(c.get('lax')), semaphore_timeout=1000.0625)
+
+        @retry(wait=0, retries=0, timeout=3600, **semkw)
+        async def holder():
+            await asyncio.sleep(c['hold'])
+
+        @retry(wait=c['wait'], retries=c['retries'], timeout=c['timeout'], retry_on=ro, backoff_factor=c['backoff'], **semkw)
         async def f(tag, *, kw=None):
             r = rec[tag]
             script = callers[tag]['script']
@@ -204,7 +229,13 @@ def run_impl(c):
             rec[tag]['end'] = loop.time()
 
         async def main():
+            if c.get('hold'):
+                hold_task = asyncio.ensure_future(holder())
+                await asyncio.sleep(0)  # the holder takes the only slot first
+                await asyncio.sleep(0)
             await asyncio.gather(*(one(t) for t in callers))
+            if c.get('hold'):
+                await hold_task
             n = {t: len(rec[t]['starts']) for t in callers}
             await asyncio.sleep(200)  # no further calls afterwards
             for t in callers:
@@ -307,6 +338,10 @@ def run_case(c):
         classes.append('returned')
     if len(accepted_main) > 1:
         classes.append('ambiguous-cutoff-vs-retry_on')
+    if c.get('hold'):
+        classes.append('queued-for-a-semaphore-slot-first')
+        if c['cancel_at'] is not None and c['cancel_at'] < c['hold']:
+            classes.append('cancelled-while-queued-for-the-slot')
     if len(callers) > 1:
         classes.append(f'concurrent-callers={len(callers)}')
         # did two calls actually overlap in time?
